@@ -333,7 +333,41 @@ impl Ctx {
     }
 
     /// one execution under the scheduler
-    fn run_sched(&self, sc: &Scen, choose: impl FnMut(usize, &[usize]) -> usize) -> Result<(Vec<usize>, Vec<Vec<usize>>, Vec<Got>, Vec<Vec<u8>>), String> {
+    /// 1 where the stand-off file of a member does not hold the member's content
+    fn file_status(&self, sc: &Scen) -> Vec<i64> {
+        sc.mem
+            .iter()
+            .enumerate()
+            .map(|(i, k)| {
+                if !standoff(*k) {
+                    return 0;
+                }
+                let content = std::fs::read_to_string(self.dir.join(member_file(i, *k))).unwrap_or_default();
+                let good = match *k {
+                    1 => content == format!("Hello plain text {}", i),
+                    2 => match serde_json::from_str::<serde_json::Value>(&content) {
+                        Ok(v) => v.get("@include").is_none() && v.get("text").and_then(|t| t.as_str()) == Some(format!("Hello json text {}", i).as_str()),
+                        Err(_) => false,
+                    },
+                    _ => match serde_json::from_str::<serde_json::Value>(&content) {
+                        Ok(v) => v.get("@include").is_none() && v.get("keys").map(|x| x.is_array()).unwrap_or(false) && v.get("data").map(|x| x.is_array()).unwrap_or(false),
+                        Err(_) => false,
+                    },
+                };
+                if good {
+                    0
+                } else {
+                    1
+                }
+            })
+            .collect()
+    }
+
+    fn run_sched(&self, sc: &Scen, choose: impl FnMut(usize, &[usize]) -> usize) -> Result<(Vec<usize>, Vec<Vec<usize>>, Vec<Got>, Vec<Vec<u8>>, Vec<i64>), String> {
+        for op in &sc.ops {
+            // (cached) solo results first: computing them rebuilds the store and its files
+            let _ = self.solo(sc, *op);
+        }
         let store = self.build(sc)?;
         let n = sc.ops.len();
         let sched = Sched::new(n);
@@ -366,34 +400,38 @@ impl Ctx {
         });
         let (actual, enabled) = ctl?;
         let sites = sched.m.lock().unwrap_or_else(|e| e.into_inner()).sites.clone();
-        Ok((actual, enabled, results, sites))
+        let files = self.file_status(sc);
+        Ok((actual, enabled, results, sites, files))
     }
 
-    fn observe(&self, sc: &Scen, results: &[Got]) -> Vec<Sx> {
-        results
+    fn observe(&self, sc: &Scen, results: &[Got], files: &[i64]) -> Vec<Sx> {
+        let mut v: Vec<Sx> = results
             .iter()
             .enumerate()
             .map(|(i, g)| {
                 let solo = self.solo(sc, sc.ops[i]);
                 l(vec![l(g.tokens.iter().map(|t| a(*t)).collect()), b(g.text == solo.text && g.tokens == solo.tokens), a(1)])
             })
-            .collect()
+            .collect();
+        v.push(l(files.iter().map(|f| a(*f)).collect()));
+        v
     }
 
     pub fn exec(&self, req: &Sx) -> (Sx, Vec<Sx>, bool) {
         let sc = Scen::from_sx(req);
         if !sc.well_formed() {
-            return (req.clone(), vec![], false);
+            // not a scenario: the empty scenario (no members, no threads) stands in for it
+            return (l(vec![]), vec![l(vec![])], false);
         }
         let want: Vec<usize> = req.nth(3).list().iter().map(|v| v.int().max(0) as usize).collect();
         match self.run_sched(&sc, |k, en| if k < want.len() { want[k] } else { en[0] }) {
-            Ok((actual, _, results, _)) => {
+            Ok((actual, _, results, _, files)) => {
                 let nt = nontrivial(&sc, &actual);
-                (sc.to_sx(&actual), self.observe(&sc, &results), nt)
+                (sc.to_sx(&actual), self.observe(&sc, &results, &files), nt)
             }
             Err(m) => {
                 eprintln!("C20 harness: scenario could not be built: {}", m);
-                (req.clone(), sc.ops.iter().map(|_| l(vec![l(vec![a(-6)]), a(0), a(1)])).collect(), false)
+                (req.clone(), sc.ops.iter().map(|_| l(vec![l(vec![a(-6)]), a(0), a(1)])).chain(std::iter::once(l(vec![a(-6)]))).collect(), false)
             }
         }
     }
@@ -485,13 +523,20 @@ fn run_op(store: &AnnotationStore, sc: &Scen, op: (u8, usize, u8)) -> Got {
                     s
                 }
                 _ => {
-                    // the parallel adaptors collect the sequential iterator first; the harness has no
-                    // rayon in scope, the collected items are read back through Debug
-                    let par = format!("{:?}", store.annotations().parallel());
-                    let seq: Vec<_> = store.annotations().collect();
-                    let seqs = format!("{:?}", seq);
-                    let ids: Vec<String> = seq.iter().map(|x| x.id().unwrap_or("?").to_string()).collect();
-                    format!("{}:{}:{:?}", par.contains(&seqs), seq.len(), ids)
+                    // the parallel adaptors, driven through rayon, against the sequential iterators
+                    use rayon::prelude::*;
+                    let par: Vec<String> = store
+                        .annotations()
+                        .parallel()
+                        .map(|x| format!("{}:{}", x.id().unwrap_or("?"), x.text().collect::<Vec<_>>().join("|")))
+                        .collect();
+                    let seq: Vec<String> = store
+                        .annotations()
+                        .map(|x| format!("{}:{}", x.id().unwrap_or("?"), x.text().collect::<Vec<_>>().join("|")))
+                        .collect();
+                    let rpar: Vec<String> = store.resources().parallel().map(|r| format!("{}:{}", r.id().unwrap_or("?"), r.textlen())).collect();
+                    let rseq: Vec<String> = store.resources().map(|r| format!("{}:{}", r.id().unwrap_or("?"), r.textlen())).collect();
+                    format!("{}:{}:{:?}:{:?}", par == seq, rpar == rseq, par, rpar)
                 }
             };
             Got { tokens: vec![], text }
@@ -557,12 +602,12 @@ fn explore(ctx: &Ctx, out: &mut Out, sc: &Scen, cap: u64, key: &str) -> Explore 
     let mut n = 0u64;
     loop {
         let p = prefix.clone();
-        let (actual, enabled, results, sites) = match ctx.run_sched(sc, |k, en| if k < p.len() { p[k] } else { en[0] }) {
+        let (actual, enabled, results, sites, files) = match ctx.run_sched(sc, |k, en| if k < p.len() { p[k] } else { en[0] }) {
             Ok(x) => x,
             Err(m) => panic!("C20 harness: scenario {:?} could not be built: {}", sc, m),
         };
         let input = sc.to_sx(&actual);
-        out.case(&input, &ctx.observe(sc, &results), nontrivial(sc, &actual), &input);
+        out.case(&input, &ctx.observe(sc, &results, &files), nontrivial(sc, &actual), &input);
         out.count(key);
         for s in sites.iter().flatten() {
             out.count(&format!("site_{}", s));
@@ -593,12 +638,12 @@ fn explore(ctx: &Ctx, out: &mut Out, sc: &Scen, cap: u64, key: &str) -> Explore 
 fn sample(ctx: &Ctx, out: &mut Out, sc: &Scen, rng: &mut Rng, count: usize, key: &str) {
     for _ in 0..count {
         let mut r = rng.fork();
-        let (actual, _, results, _) = match ctx.run_sched(sc, |_, en| en[r.below(en.len())]) {
+        let (actual, _, results, _, files) = match ctx.run_sched(sc, |_, en| en[r.below(en.len())]) {
             Ok(x) => x,
             Err(m) => panic!("C20 harness: scenario {:?} could not be built: {}", sc, m),
         };
         let input = sc.to_sx(&actual);
-        out.case(&input, &ctx.observe(sc, &results), nontrivial(sc, &actual), &input);
+        out.case(&input, &ctx.observe(sc, &results, &files), nontrivial(sc, &actual), &input);
         out.count(key);
     }
 }
